@@ -1,14 +1,17 @@
 (* Properties/C03.v — Every eligible target ends up scraped by exactly one shard. *)
 From KV Require Import Base.Util Base.AMap Base.Sched Gen.Consts Model.Coordinator Model.CoordCheck Model.Sidecar Model.World
-                       Proofs.CoordBasics Proofs.WorldProofs.
+                       Proofs.CoordBasics Proofs.CoordC01 Proofs.WorldProofs Proofs.CoordStable.
 Local Open Scope list_scope.
 Local Open Scope Z_scope.
 
 (* STATUS.  The full statement - from every well-formed world, under a fair fault-free schedule, a converged world is
    reached within a bound and further cycles change nothing - is a liveness property of the composition of the cycle,
    the sidecars, the scrapes and the StatefulSet (Model/World.v).  It is NOT proved as one theorem here.  Proved, for
-   every input and every iteration order, are its one-cycle ingredients below; the composition is validated in lock
-   step against the real closed loop (engine `loop`), whose end states are checked for convergence and stability. *)
+   every input and every iteration order, are its one-cycle ingredients below and its second half - "further cycles
+   then change nothing": a settled placement is a fixpoint of the cycle (C03_settled_is_fixpoint, for the default
+   max-idle-time 0; with an idle time-out the coordinator keeps consolidating shards, which is C07's subject).  The
+   composition "converges within a bound" is validated in lock step against the real closed loop (engine `loop`),
+   whose end states are checked for convergence and stability. *)
 
 (* "Whenever all shards are in sync and an eligible unscraped target cannot be placed, the requested shard count
    exceeds the current one": one cycle of the model, any schedule *)
@@ -95,3 +98,53 @@ Example C03_example_converges :
   placement (obs_of_world w5) = [[(11%N, Normal); (12%N, Normal)]; [(10%N, Normal)]] /\
   placement_eqb (obs_of_world w5) (obs_of_world w6) = true.
 Proof. vm_compute. repeat split. Qed.
+
+(* ---- "further cycles then change nothing" ----
+   settled: every shard in sync; every reported copy is of a discovered target, in normal state, and no target is on
+   two shards; no shard is above a relief threshold; every discovered target is held by some shard or cannot be
+   assigned (not probed healthy, or larger than a shard); idle time-out off; the shard count within [min, max].
+   Then, for every schedule: no placement event, the only scale request is the current count, the final plan is the
+   reported one, and whatever target update is still sent repeats the reported assignment. *)
+Theorem C03_settled_is_fixpoint : forall o i sch, settled o i ->
+  let out := cycle o i sch in
+  o_events out = [] /\ o_scales out = [Z.of_nat (length (i_shards i))] /\
+  o_plan out = o_infos out /\ o_skipped out = false /\ o_divzero out = false.
+Proof. exact settled_is_fixpoint. Qed.
+Print Assumptions C03_settled_is_fixpoint.
+
+Theorem C03_settled_updates_repeat_the_assignment : forall o i sch k, settled o i ->
+  let ob := obs_of (cycle o i sch) in
+  forall x, In x (intended i ob k) <-> In x (map (fun kv => (fst kv, c_state (snd kv))) (reported i k)).
+Proof. exact settled_posts_repeat. Qed.
+Print Assumptions C03_settled_updates_repeat_the_assignment.
+
+(* non-vacuity: two in-sync shards, one target each, one discovered target that is too large for a shard *)
+Definition sx_stat (s t : Z) : cstat := {| c_state := Normal; c_health := Good; c_series := s; c_total := t; c_times := 7 |}.
+Definition sx_shard (h : N) : shard_in :=
+  {| sh_ready := true; sh_status := Some [(h, sx_stat 10 10)];
+     sh_rt1 := Some {| r_head := 10; r_proc := 10; r_hash_ok := true; r_idle := None |};
+     sh_push_ok := true; sh_rt2 := None; sh_post_ok := true |}.
+Definition sx_o : opts := {| max_head := 0; max_proc := 100; max_shard := 4; min_shard := 1; max_idle := 0; disable_alleviate := false |}.
+Definition sx_i : input :=
+  {| i_shards := [sx_shard 1; sx_shard 2]; i_active := [(1%N, 0%N); (2%N, 0%N); (3%N, 0%N)];
+     i_explore := [(3%N, sx_stat 500 500)]; i_scale1_ok := true |}.
+Example C03_settled_example : settled sx_o sx_i.
+Proof.
+  constructor.
+  - constructor.
+    + intros [|[|k]] Hk; cbn in Hk; try lia; split; reflexivity.
+    + intros k kv Hin. destruct k as [|[|k]];
+        [vm_compute in Hin; destruct Hin as [<-|[]]; split; reflexivity
+        |vm_compute in Hin; destruct Hin as [<-|[]]; split; reflexivity
+        |rewrite nth_si_out in Hin by (cbn; lia); destruct Hin].
+    + intros k j h Hne Hin. destruct k as [|[|k]].
+      * vm_compute in Hin. destruct Hin as [<-|[]]. destruct j as [|[|j]]; [congruence|reflexivity|].
+        rewrite nth_si_out by (cbn; lia). reflexivity.
+      * vm_compute in Hin. destruct Hin as [<-|[]]. destruct j as [|[|j]]; [reflexivity|congruence|].
+        rewrite nth_si_out by (cbn; lia). reflexivity.
+      * rewrite nth_si_out in Hin by (cbn; lia). destruct Hin.
+  - right. intros [|[|k]] Hk; cbn in Hk; try lia; split; [reflexivity|now left|reflexivity|now left].
+  - intros h Hin. vm_compute in Hin. destruct Hin as [<-|[<-|[<-|[]]]]; [left; reflexivity|left; reflexivity|right; right; reflexivity].
+  - reflexivity.
+  - cbn. lia.
+Qed.
